@@ -313,7 +313,50 @@ func returnFacts() {
 	}
 }
 
+// cacheFacts prints the shape of every assignment (not :=) in typecache.go's cachedTypeInfo and
+// cachedTypeInfo1: `cacheassign\t<func>\t<lhs shape> = <rhs shape>`. The placeholder entry that breaks
+// recursion must be FILLED IN PLACE (`*v[v] = *v`): coders generated while a recursive type is under
+// construction hold a pointer to it.
+func cacheFacts() {
+	file := "src/storage/rlp/typecache.go"
+	fset := token.NewFileSet()
+	f, err := parser.ParseFile(fset, file, nil, 0)
+	if err != nil {
+		fmt.Fprintln(os.Stderr, err)
+		os.Exit(1)
+	}
+	var sh func(e ast.Expr) string
+	sh = func(e ast.Expr) string {
+		switch x := e.(type) {
+		case *ast.StarExpr:
+			return "*" + sh(x.X)
+		case *ast.IndexExpr:
+			return sh(x.X) + "[" + sh(x.Index) + "]"
+		case *ast.CallExpr:
+			return "f"
+		case *ast.Ident, *ast.SelectorExpr:
+			return "v"
+		case *ast.CompositeLit:
+			return "lit"
+		}
+		return "?"
+	}
+	for _, d := range f.Decls {
+		fd, ok := d.(*ast.FuncDecl)
+		if !ok || fd.Body == nil || (fd.Name.Name != "cachedTypeInfo" && fd.Name.Name != "cachedTypeInfo1") {
+			continue
+		}
+		ast.Inspect(fd.Body, func(n ast.Node) bool {
+			if as, ok := n.(*ast.AssignStmt); ok && as.Tok == token.ASSIGN && len(as.Lhs) == 1 && len(as.Rhs) == 1 {
+				fmt.Printf("cacheassign\t%s\t%s = %s\n", fd.Name.Name, sh(as.Lhs[0]), sh(as.Rhs[0]))
+			}
+			return true
+		})
+	}
+}
+
 func main() {
+	cacheFacts()
 	returnFacts()
 	convFacts()
 	stateFacts()
